@@ -105,7 +105,7 @@ def _work(sc):
                "n": op.get("n") or op.get("p"), "prior": sc["prior"], "opname": sc["opname"],
                "expect": C(("prop", op["v"])) if op.get("as", op["t"]) == "prop" else 0,
                "pre": r["pre"], "final": r["final"], "oper_error": r["oper_error"],
-               "images": [{"k": im["k"], "gate": im["gate"], "torn": im["torn"], "obs": im["obs"]}
+               "images": [{"k": im["k"], "gate": im["gate"], "torn": im["torn"], "obs": im["obs"], "rerr": im.get("rerr", "")}
                           for im in r["images"]],
                "gates": r["gates"], "nevents": r["nevents"], "basekind": sc["kind"],
                "interrupt_points": r["interrupt_points"], "interrupt_lines": r["interrupt_lines"],
